@@ -589,9 +589,17 @@ def run(repo, chk):
         # run, another value than in an uninterrupted run that passed the same instant -- unless the loop itself keeps it moving (re-assigns it on the way round, as
         # the rule clock is advanced).  Such an attribute that the loop or a method it calls READS and never re-assigns makes the continued run depend on the
         # pause point.
-        def clock_text(e):
-            t = unparse(e)
-            return "sim_time" in t
+        def clock_text(e, depth=0):
+            """does the value depend on the clock -- directly, or through locals the prologue assigns (followed through their definitions)?"""
+            if "sim_time" in unparse(e):
+                return True
+            if depth > 4:
+                return False
+            for nm in {x.id for x in ast.walk(e) if isinstance(x, ast.Name)}:
+                for d_ in walk(pro_mod):
+                    if isinstance(d_, ast.Assign) and any(isinstance(t_, ast.Name) and t_.id == nm for t_ in _flat_targets(d_)) and clock_text(d_.value, depth + 1):
+                        return True
+            return False
         loop_reads = set()
         for fnode in [loop_mod] + [meths[m] for m in sorted(loop_methods)]:
             in_log = set()           # reads that only feed a log message do not influence the run
